@@ -1128,6 +1128,19 @@ func (f *frame) fieldCoverObligations() {
 // libResultType: result type of a library function or method named as in the library
 // models ("pkg.Func", "pkg.(pkg.Recv).Method"), when it has exactly one result.
 func (E *Engine) libResultType(key string) types.Type {
+	// "pkg.Iface.method" of an interface declared in one of the verified packages
+	if parts := strings.Split(key, "."); len(parts) == 3 {
+		if sp := E.L.SSA[parts[0]]; sp != nil {
+			if tn, ok := sp.Pkg.Scope().Lookup(parts[1]).(*types.TypeName); ok && types.IsInterface(tn.Type()) {
+				obj, _, _ := types.LookupFieldOrMethod(tn.Type(), false, sp.Pkg, parts[2])
+				if fn, ok := obj.(*types.Func); ok {
+					if sig := fn.Type().(*types.Signature); sig.Results().Len() == 1 {
+						return sig.Results().At(0).Type()
+					}
+				}
+			}
+		}
+	}
 	for _, p := range E.L.Prog.AllPackages() {
 		path := p.Pkg.Path()
 		if !strings.HasPrefix(key, path+".") {
